@@ -21,7 +21,7 @@
      ref_glob / ref_pattern_glob       the reference enumeration used by the oracle *)
 From verif Require Import lib.Base lib.Utf8 model.C23
   proofs.C23_proofs proofs.C23_glob_proofs proofs.C23_top_proofs proofs.C23_more_proofs
-  proofs.C23_nodup_proofs.
+  proofs.C23_nodup_proofs proofs.C23_tree_proofs proofs.C23_blocked_proofs.
 Open Scope nat_scope.
 
 (* ---- the oracle's reference matcher decides the specification ---- *)
@@ -90,6 +90,26 @@ Theorem C23_ascii_literals_aligned : forall d,
 Proof. exact ascii_lit_aligned. Qed.
 Print Assumptions C23_ascii_literals_aligned.
 
+(* a larger class: every star that is followed by another star is either followed
+   by an unrestricted star, or pinned by a literal whose first rune its class
+   rejects (chain_ok over the chunks of the element); there the greedy matcher
+   and the reference matcher are the same function *)
+Theorem C23_match_element_complete_blocked_partial : forall segs name,
+  chain_ok dec (chunks segs) -> ElemSpec segs name -> matchElement dec segs name = true.
+Proof. exact match_element_complete_blocked. Qed.
+Print Assumptions C23_match_element_complete_blocked_partial.
+
+Theorem C23_greedy_agrees_with_reference_partial : forall segs name,
+  chain_ok dec (chunks segs) -> no_empty_lit segs ->
+  Forall wild_hidden segs \/ Forall no_hidden_star segs ->
+  matchElement dec segs name = ref_elem dec segs name.
+Proof. exact greedy_agrees_with_reference. Qed.
+Print Assumptions C23_greedy_agrees_with_reference_partial.
+
+Example C23_ex_blocked_class :
+  chain_ok dec (chunks [Wild (wSet 99); Lit [100%N]; Wild (wSet 101); Lit [102%N]]).
+Proof. exact blocked_example. Qed.
+
 Theorem C23_match_element_complete_refuted :
   exists segs name, ElemSpec segs name /\ matchElement dec segs name = false.
 Proof. exact match_element_complete_refuted. Qed.
@@ -147,6 +167,34 @@ Theorem C23_glob_nodup_refuted :
   exists fs segs l, pattern_glob 8 fs segs = Some l /\ ~ NoDup (map fst l).
 Proof. exact glob_nodup_refuted. Qed.
 Print Assumptions C23_glob_nodup_refuted.
+
+(* ---- the executed instance (file system computed from a well-formed tree) ---- *)
+
+(* ReadDir contract: distinct slash-free names *)
+Theorem C23_tree_fs_ok : forall wd, wf_tree (w_root wd) = true -> fs_ok (tree_fs wd).
+Proof. exact tree_fs_ok. Qed.
+Print Assumptions C23_tree_fs_ok.
+
+(* fuel: any file system with a bounded rank that decreases along directory
+   entries; length segs * (H+1) + rank suffices *)
+Theorem C23_glob_fuel_ranked : forall fs m rk H, ranked fs rk H ->
+  forall fuel segs dir, dir_ok dir -> length segs * S H + rk dir < fuel ->
+  exists l, glob_gen m fuel fs segs dir = Some l.
+Proof. exact glob_fuel_ranked. Qed.
+Print Assumptions C23_glob_fuel_ranked.
+
+(* the judge's fuel (fuel_of) is sufficient for every pattern, every element
+   matcher and every well-formed tree: the out-of-fuel result never occurs *)
+Theorem C23_glob_fuel_sufficient : forall wd, wf_tree (w_root wd) = true ->
+  forall m segs, exists l, pattern_glob_gen m (fuel_of wd segs) (tree_fs wd) segs = Some l.
+Proof. exact glob_fuel_sufficient. Qed.
+Print Assumptions C23_glob_fuel_sufficient.
+
+Theorem C23_executed_instance_nodup : forall wd segs, wf_tree (w_root wd) = true ->
+  exists l, pattern_glob (fuel_of wd segs) (tree_fs wd) segs = Some l /\
+            (Forall lit_ok segs -> count_ss segs <= 1 -> NoDup (map fst l)).
+Proof. exact executed_instance_nodup. Qed.
+Print Assumptions C23_executed_instance_nodup.
 
 (* ---- doGlob ---- *)
 
